@@ -29,6 +29,7 @@ type c15Case struct {
 	Pos   int    `json:"pos"`   // position of the hostile entry in the 2-file set
 	Disk  bool   `json:"disk"`  // run on a real directory with a canary tree
 	Abs   bool   `json:"abs,omitempty"` // name is made absolute by prefixing the scratch root
+	Dmg   bool   `json:"dmg,omitempty"` // damaged copies of the declared files are present in the archive directory (else they are missing)
 }
 
 func c15Names(maxLen int) []string {
@@ -83,9 +84,11 @@ func c15Gen(g *core.Gen) {
 	for _, f := range []string{"p2", "p1"} {
 		for _, n := range names {
 			for pos := 0; pos < 2; pos++ {
-				g.Emit(&c15Case{Fmt: f, Name: n, Pos: pos})
-				if diskSet[n] || len(n) < 9 || (g.Thorough() && len(n) < 12) {
-					g.Emit(&c15Case{Fmt: f, Name: n, Pos: pos, Disk: true})
+				for _, dmg := range []bool{false, true} {
+					g.Emit(&c15Case{Fmt: f, Name: n, Pos: pos, Dmg: dmg})
+					if diskSet[n] || len(n) < 9 || (g.Thorough() && len(n) < 12) {
+						g.Emit(&c15Case{Fmt: f, Name: n, Pos: pos, Disk: true, Dmg: dmg})
+					}
 				}
 			}
 		}
@@ -174,6 +177,18 @@ func c15Run(ci interface{}, r *core.Rec) {
 		index = arch + "/s.par"
 	}
 	directOnly := c.Fmt == "p1"
+	if c.Dmg {
+		// the declared files exist in the archive directory, damaged (so Repair has something to replace, not only to create)
+		for i, n := range names {
+			p := path.Join(arch, n)
+			if strings.ContainsRune(n, 0) || !c15Inside(arch, p, directOnly) || strings.HasSuffix(n, "/") {
+				continue
+			}
+			d := append([]byte{}, datas[i]...)
+			d[0] ^= 0x55
+			files[strings.TrimPrefix(p, arch+"/")] = d
+		}
+	}
 
 	if !c.Disk {
 		fs := envfs.New()
@@ -234,8 +249,13 @@ func c15Run(ci interface{}, r *core.Rec) {
 	ioutil.WriteFile(root+"/a", []byte("decoy named a"), 0644)
 	ioutil.WriteFile(arch+"/sub/keep", []byte("inner"), 0644)
 	for n, b := range files {
+		os.MkdirAll(filepath.Dir(arch+"/"+n), 0755)
 		ioutil.WriteFile(arch+"/"+n, b, 0644)
 	}
+	// run from a directory that is neither the archive's nor its parent: anything resolved against the current directory lands in the canary tree
+	oldwd, _ := os.Getwd()
+	os.Chdir(root + "/outside")
+	defer os.Chdir(oldwd)
 	escapeProbe := "/tmp/verif-c15-escape"
 	os.Remove(escapeProbe)
 	before := snapTree(root)
@@ -338,7 +358,7 @@ func init() {
 	core.Register(&core.Prop{
 		ID:    "C15",
 		Level: "model_checking",
-		Rule: "bounded-exhaustive declared names: every path built from components {a, .., ., empty, a.., ..a} of length 1-4 (thorough 1-5), each with/without a leading and a trailing slash, plus backslash, NUL, drive-letter, UNC, long-traversal and non-ASCII (UTF-8, Latin-1, invalid UTF-8) spellings and absolute paths into a canary tree; in each position of a 2-file set; PAR1 and PAR2 archives written by the reference writers as fully repairable sets whose declared files are missing; real Verify and Repair. All names run on the recording in-memory filesystem; names shorter than 9 characters (thorough: 12) additionally on a real directory with a canary tree (byte snapshot of everything around the archive directory before/after). PAR2 Create with inputs outside the index directory in 10 spellings. " +
+		Rule: "bounded-exhaustive declared names: every path built from components {a, .., ., empty, a.., ..a} of length 1-4 (thorough 1-5), each with/without a leading and a trailing slash, plus backslash, NUL, drive-letter, UNC, long-traversal and non-ASCII (UTF-8, Latin-1, invalid UTF-8) spellings and absolute paths into a canary tree; in each position of a 2-file set; PAR1 and PAR2 archives written by the reference writers as fully repairable sets whose declared files are x {missing, present in the archive directory but damaged}; real Verify and Repair. Real-directory runs execute from a third directory inside the canary tree, so anything resolved against the current directory is seen. All names run on the recording in-memory filesystem; names shorter than 9 characters (thorough: 12) additionally on a real directory with a canary tree (byte snapshot of everything around the archive directory before/after). PAR2 Create with inputs outside the index directory in 10 spellings. " +
 			"Oracle: every write path, cleaned, lies inside the index directory tree (PAR1: directly in it); nothing outside changes or appears; Create refuses. non-trivial = every case (each declares a hostile or boundary name)",
 		Assumptions: []string{"reads outside the directory are counted in evidence but are not an alarm (the statement constrains create/modify/delete)", "Linux path semantics: backslash is an ordinary character"},
 		NewCase:     func() interface{} { return &c15Case{} },
